@@ -71,8 +71,14 @@ def _run_round(desc):
             case = {"kind": "round", "shape": list(shp), "mask": x, "dtype": np.dtype(dt).name}
             # --- from_data_mask
             if dt != np.uint32:
-                spf = sf.from_data_mask(mask.astype(np.int8), data, {"threshold": 1})
-                ok = _check_frame(sh, "from_data_mask", case, spf, mask, data, cI)
+                ok = True
+                # a mask is "everything > 0": 0/1, bool and other positive flag values select the same pixels
+                for flavour, mk in (("int8 0/1", mask.astype(np.int8)), ("bool", mask.copy()), ("int8 0/7", (mask * 7).astype(np.int8)),
+                                    ("int8 0/127", (mask * 127).astype(np.int8)), ("int8 mixed", (mask * (1 + (np.arange(n).reshape(shp) % 5))).astype(np.int8))):
+                    spf = sf.from_data_mask(mk, data, {"threshold": 1})
+                    ok = _check_frame(sh, "from_data_mask[%s]" % flavour, case, spf, mask, data, cI)
+                    if not ok:
+                        break
                 if not ok:
                     continue
             # --- from_data_cut: cut so that exactly the mask pixels survive: put low values outside the mask
